@@ -81,7 +81,7 @@ impl Context {
     pub fn define<N: Into<String>, V: Into<String>>(&mut self, name: N, value: V) -> &mut Self {
         let n = name.into();
         let v = value.into();
-        let rstring = format!("\\b{}\\b", &n);
+        let rstring = format!("\\b{}\\b", regex::escape(&n));
         let regex = Regex::new(&rstring).unwrap();
         self.defs.insert(n.clone(), v.clone());
         self.defs_ex.last_mut().unwrap().push(n);
@@ -539,7 +539,12 @@ pub fn process<I: BufRead, O: Write>(
                     })?;
                     debug!("expr: {:?}", expr);
 
-                    let caps = context.define_regex.captures(expr).unwrap();
+                    let caps = context.define_regex.captures(expr).ok_or_else(|| Error::Syntax {
+                        filename: filename.clone(),
+                        included_in: included_in.clone(),
+                        line,
+                        msg: "Invalid macro definition".to_string(),
+                    })?;
                     debug!("caps: {:?}", caps);
                     let mcro = &caps[1];
                     if context.get_macro(mcro).is_some() {
@@ -559,8 +564,8 @@ pub fn process<I: BufRead, O: Write>(
                         let params = caps.get(2).unwrap().as_str();
                         if !params.is_empty() {
                             for v in caps.get(2).unwrap().as_str().split(',') {
-                                let vx = v.trim_start();
-                                let re = Regex::new(&format!("\\b{}\\b", vx)).unwrap();
+                                let vx = v.trim();
+                                let re = Regex::new(&format!("\\b{}\\b", regex::escape(vx))).unwrap();
                                 value = re.replace_all(&value, format!("$${}", vx)).to_string();
                                 //rex += &format!("(?P<{}>[^,]*?),", vx);
                                 rex += &format!(
@@ -574,6 +579,14 @@ pub fn process<I: BufRead, O: Write>(
                         rex += "\\)";
                         value = value.replace("##", ""); // Double hash
                         debug!("regex:{}", &rex);
+                        if Regex::new(&rex).is_err() {
+                            return Err(Error::Syntax {
+                                filename: filename.clone(),
+                                included_in: included_in.clone(),
+                                line,
+                                msg: "Invalid macro parameter list".to_string(),
+                            });
+                        }
                         context.define_ex(mcro, (rex, value));
                     }
                 }
